@@ -37,7 +37,8 @@ class Gen:
             raise RuntimeError("no fresh discriminant")
         variants = []
         has_catch = (maxval is None or maxval >= 255 or subcatch) and r.random() < (0.6 if subcatch else 0.35) and not implicit
-        has_default = (not has_catch) and r.random() < 0.35
+        # both attributes on one enum are legal (the catch-all wins for unlisted values)
+        has_default = r.random() < (0.4 if has_catch else 0.35)
         default_at = r.randrange(nvar) if has_default else -1
         for i in range(nvar):
             v = {"name": f"V{i}", "disc": None if implicit else fresh(), "alts": [], "catch": False,
